@@ -205,7 +205,12 @@ func (c *Ctx) evalModEntry(e SExpr, qvars []Term, guard Term) []ModEntry {
 			return []ModEntry{{qvars: qvars, guard: guard, id: v.T, heaps: c.cellLeafRefs(p.Elem()), src: src}}
 		}
 	case *SSel:
-		// s.f : a single field
+		// s.f : a single field (for a map-typed field: the map object it refers to)
+		if fv := c.evalSpecMaybe(e); fv != nil && fv.K == VScalar && fv.Typ != nil {
+			if mt, ok := fv.Typ.Underlying().(*types.Map); ok {
+				return []ModEntry{{qvars: qvars, guard: guard, id: fv.T, heaps: c.mapLeafRefs(mt), src: src}}
+			}
+		}
 		base := c.evalSpec(x.X)
 		if base.K == VScalar && base.Typ != nil {
 			if n, _ := structOf(base.Typ); n != nil {
@@ -739,4 +744,18 @@ func (c *Ctx) applyLemma(pi *PkgInfo, lm *Lemma, args []*Val) {
 	c.Fr, c.bound = savedFr, savedBound
 	// instance of an already established (or axiomatic) fact: premise ==> conclusion
 	c.assume(Implies(And(pre...), And(post...)))
+}
+
+// evalSpecMaybe evaluates e, returning nil when it is outside the supported forms.
+func (c *Ctx) evalSpecMaybe(e SExpr) (v *Val) {
+	defer func() {
+		if r := recover(); r != nil {
+			if _, ok := r.(refusal); ok {
+				v = nil
+				return
+			}
+			panic(r)
+		}
+	}()
+	return c.evalSpec(e)
 }
